@@ -233,6 +233,9 @@ func runC18(k c18Case) (vs []mon.V, err error) {
 			}
 			continue
 		}
+		if isValid(s) && st.Error != "" {
+			add("C18/settings/valid-with-error-text", fmt.Sprintf("setting %s is valid but still reports the error %q", s.Name, st.Error))
+		}
 		overlapsAny := false
 		for j, o := range k.Settings {
 			if i == j {
